@@ -75,7 +75,11 @@ func newCliWorld(r *Run, org origin, uri string, fate func(nr *netReq) *netFate)
 		// while the hand-over is half done
 		if (r.Prop == "C12" || r.Prop == "C13") && r.T.Chance(1, 2) {
 			site := clientDelaySites[r.T.Intn(len(clientDelaySites))]
-			hold := time.Duration(Pick(r.T, 200, 1000, 5000, 20000)) * time.Microsecond
+			if r.T.Chance(1, 2) {
+				site = "client.processor.beforePush" // the one site inside a loop: fragment by fragment, sample by sample
+			}
+			// up to longer than a fragment plays, so that a track processor can get ahead of its stream processor
+			hold := time.Duration(Pick(r.T, 200, 1000, 5000, 20000, 100000, 300000)) * time.Microsecond
 			r.SetDelay(site, hold)
 			r.Log("client", "0s (harness) goroutines passing %s are held %v", site, hold)
 			r.Probe("client-goroutine-held")
